@@ -62,10 +62,19 @@ def regress_table():
         out.append("| %s | %s | %s |" % (e["patch"], ", ".join(e["props"]), "; ".join("`%s`" % x.replace("|", "\\|") for x in (e.get("expect") or []))))
     return "\n".join(out)
 
+def refactors_table():
+    out = ["| id | refactoring (one line) | repository tests | alarms |", "|---|---|---|---|"]
+    for p in sorted(glob.glob(os.path.join(HERE, "refactors", "*", "meta.json"))):
+        m = json.load(open(p))
+        al = m.get("alarms") or {}
+        out.append("| %s | %s | %s | %s |" % (m["id"], short(m.get("summary") or "", 260).replace("|", "\\|"), m.get("suite", "-") + ((" (excluded: " + m["exclude"] + ")") if m.get("exclude") else ""),
+                                          "none" if not al else "; ".join("%s: %s" % (k, short(str(v.get("keys") or v.get("tail")), 80).replace("|", "\\|")) for k, v in sorted(al.items()))))
+    return "\n".join(out)
+
 def main():
     p = os.path.join(HERE, "DESIGN.md")
     s = open(p).read()
-    for name, fn in (("RULES", rules_table), ("SEEDED", seeded_table), ("HAND", hand_table), ("REGRESS", regress_table)):
+    for name, fn in (("RULES", rules_table), ("SEEDED", seeded_table), ("HAND", hand_table), ("REGRESS", regress_table), ("REFACTORS", refactors_table)):
         a, b = "<!-- GENERATED:%s -->" % name, "<!-- /GENERATED:%s -->" % name
         if a not in s:
             print("marker missing:", name); continue
